@@ -1237,3 +1237,19 @@ Proof.
     rewrite (IH _ _ _ E2), (api_step_leaked _ _ _ _ _ _ _ _ E1).
     destruct o, (a_state a); try reflexivity. cbn [negb]. rewrite andb_false_r, orb_false_r. reflexivity.
 Qed.
+
+(* the scripted callback with an empty plan, stated without the abstract [Good] *)
+Theorem session_acc_plan : forall bs bibl chunks pl' res,
+  (0 < bs)%nat -> session plan_cb bs bibl [] chunks = (pl', res) ->
+  let data := concat chunks in
+  let r := (length data mod bs)%nat in
+  exists blocks last,
+    flat res = blocks ++ last /\ Forall (full bs) blocks /\ length blocks = (length data / bs)%nat /\
+    (r = 0%nat -> last = []) /\
+    (r <> 0%nat -> exists i, last = [i] /\ i_off i = (r + padlen bs bibl r)%nat /\
+                             i_ret i = Z.of_nat (i_off i)) /\
+    all_ok res /\ acc (flat res) = data ++ zeros (padlen bs bibl r) /\ pl' = [].
+Proof.
+  intros bs bibl chunks pl' res Hbs H.
+  exact (session_acc plan_cb (fun c => c = []) plan_accepting bs bibl [] chunks pl' res Hbs eq_refl H).
+Qed.
